@@ -86,6 +86,18 @@ def run_property(prop, mod, tier="quick", seed=0, update_lock=False):
     reports, table, nuniq = run_units(units, timeout=30 if thorough else 10, retry=240 if thorough else 60,
                                       want_both=thorough, only_prop=prop)
     mine = {k: e for k, e in table.items() if prop in e["props"]}
+    # obligations decided by a static analysis of the real AST instead of an SMT query (frame conditions)
+    if hasattr(mod, "analysis_obligations"):
+        for ob in mod.analysis_obligations(tier):
+            mine[ob["label"]] = {
+                "label": ob["label"], "kind": ob.get("kind", "frame"), "props": {prop}, "instances": 1,
+                "discharged": 1 if ob["ok"] else 0, "solvers": {ob.get("backend", "frame-analysis")}, "time": 0.0,
+                "units": {ob.get("func", "")}, "func": ob.get("func", ""),
+                "failed": [] if ob["ok"] else [{"result": "sat", "path": [ob.get("note", "")], "unit": ob.get("func", ""),
+                                                 "attempts": [("frame-analysis", "violated", 0)], "smt2": "", "note": ob.get("note", "")}],
+            }
+            if ob.get("source"):
+                reports.append({"unit": ob["func"], "func": ob["func"], "source": ob["source"], "errors": [], "paths": 0, "cuts": 0, "outcomes": [], "obligs": []})
     engine_errors = [f"{r['unit']}: {e}" for r in reports for e in r["errors"]]
     funcs = {}
     for r in reports:
@@ -221,8 +233,11 @@ def run_property(prop, mod, tier="quick", seed=0, update_lock=False):
         "assumptions": SEMANTICS_ASSUMPTIONS + list(getattr(mod, "ASSUMPTIONS", [])),
         "wall_s": round(time.time() - pr.t0, 2), "violations": len(pr.violations),
     }
-    os.makedirs(os.path.join(VERIF, "evidence"), exist_ok=True)
-    with open(os.path.join(VERIF, "evidence", f"{prop}.json"), "w") as f:
+    # runs against a scratch copy of the repository (self-tests with seeded changes) must not overwrite the
+    # evidence of the real tree
+    evdir = os.path.join(VERIF, "evidence" if not os.environ.get("PYVC_REPO_SRC") else "evidence-scratch")
+    os.makedirs(evdir, exist_ok=True)
+    with open(os.path.join(evdir, f"{prop}.json"), "w") as f:
         json.dump(ev, f, indent=1, default=str)
 
     pr.say(f"[{prop}] tier={tier} obligations={n_obl} discharged={n_dis} known-findings={len(seen_kf)} "
